@@ -112,6 +112,8 @@ func driveOne(base string, seed int64) ([]TLine, error) {
 	defer w.close()
 	maxCalls := 6 + rng.Intn(22)
 	maxFail := rng.Intn(4)
+	maxBreak := rng.Intn(4)
+	nbreak := 0
 	maxStream := rng.Intn(5)
 	// never queue more calls than a batcher's channel holds, or the issuing goroutine would block
 	capOut := runtime.GOMAXPROCS(-1) - 1
@@ -168,12 +170,23 @@ func driveOne(base string, seed int64) ([]TLine, error) {
 			w.issue(randomTmpl(rng, cfg))
 		case len(pend) > 0 && r < 7:
 			k := pend[rng.Intn(len(pend))]
-			ok := true
+			mode, n := ansOK, 0
 			if nfail < maxFail && rng.Intn(4) == 0 {
-				ok = false
+				mode = ansFail
 				nfail++
+			} else if nbreak < maxBreak && rng.Intn(4) == 0 {
+				// retriable break after a prefix of the responses (reads are retried by the client)
+				mode, n = ansBreak, rng.Intn(6)
+				nbreak++
 			}
-			w.answer(k.s, k.k, ok)
+			if mode == ansBreak && k.k == "r" {
+				w.mu.Lock()
+				if l := w.pend[k]; len(l) > 0 && n > len(l[0].p) {
+					n = len(l[0].p)
+				}
+				w.mu.Unlock()
+			}
+			w.answer(k.s, k.k, mode, n)
 		case len(open) > 0 && r < 9:
 			st := open[rng.Intn(len(open))]
 			cand := nextKeys(st.s, cfg.N, st.last)
